@@ -1202,6 +1202,9 @@ def _specialise_on_flags(tree):
                 # the flag must be a plain local (assigned in this function or a parameter), and the tail small enough to duplicate
                 if sum(1 for x in tail for _ in ast.walk(x)) > 1500:
                     continue
+                # straight-line tails only: duplicating a loop would give the path rules two copies of one solver loop to reason about
+                if any(isinstance(n, (ast.For, ast.While, ast.Try)) for x in tail for n in _own_walk_nodes(x)):
+                    continue
                 arms = []
                 for val in (True, False):
                     arm = []
